@@ -5,8 +5,19 @@
   `ExecAt r off n f` (Lemmas/PseudoExec): the `n` bytes at byte offset `off` of `r.bytes` are one
   instruction — a 32-bit word `w` with `decode32 w = some i` and `exec i 4 = f` (n = 4), or a legal RVC
   halfword with `decode16 w = some ci` and `execC ci = f` (n = 2; `execC ci s = exec (expand16 ci) 2 s`).
-  The source item is followed through the passes by `pseudo_trace` (Lemmas/PseudoTrace); `off` is the
-  sum of the sizes of everything the final list holds before the item's block.
+  The source item is followed through the passes by `pseudo_trace` (Lemmas/PseudoTrace).  `off` is NOT free:
+  every theorem concludes `SourceAt H compress items r A B line off` (Lemmas/PseudoTrace) — with
+  `layoutOf H compress items = .ok lay` (Props/C04, a function of the inputs, tables = the returned ones) the
+  list held after resolve_aligns is `lay.aligned = P7 ++ blk ++ S7`, `P7` the image (`Expands`) of the source
+  prefix `A`, `S7` of the suffix `B`, `blk` the instruction items of this source line, `off = sizeSum P7`,
+  `0 ≤ off`.
+
+  Hypotheses of the theorems below (none of them is "decidable" as a whole): `NonNeg items` (no item has a
+  negative SIZE — this is about `include_bytes` sizes, not about literals); `LitOK` for the evaluator hook (the
+  decimal numerals 0 … 31 evaluate to themselves; holds for the text front end, `C04.litOK_evalArith`); for
+  call / tail / branches `OffsetHook` (`%offset r` parses to `.offset r`; `C20.textHooks_offsetHook`) and the
+  target a label no constant shadows; for `li`, `ImmLabelFree` of the operand (a semantic condition on the
+  evaluator, not decidable in general; literals satisfy it: `C20.labelFree_literal`).
 
   (a) `assemble_li_effect` : `li rd, e` with a LABEL-FREE operand (`ImmLabelFree`: KF-A1/A6/A7 — the width
       decision goes stale — and KF-D/D5 — `%offset` in the two-instruction form — are exactly the
@@ -76,12 +87,14 @@ theorem assemble_li_effect (H : Hooks) (compress : Bool) (items : List Item) (r 
     (e : items = A ++ .pseudo line "li" (rd :: toks) :: B)
     {imm : Imm} (hparse : H.parseImm toks line = .ok imm) (hfree : ImmLabelFree H r.constants imm) :
     ∃ (off : Int) (a : Nat) (v : Int),
+      SourceAt H compress items r A B line off ∧
       lookupRegister (aliasReg r.constants (.str rd)) = some a ∧
       (∀ L p, imm.eval H (chainGet r.constants L) line p = .ok v) ∧
       LiEffect r off a v := by
   obtain ⟨items1, _, _, _, _, _, _, _, _, _, _, _, h1, _⟩ := assemble_stages_all H compress items r h
-  obtain ⟨G7, P, blk, S, q, Lq, instrs, short, eG, hexp, hz, hplaced, _, _, _⟩ :=
+  obtain ⟨G7, P, blk, S, q, Lq, instrs, short, eG, hexp, hz, hplaced, _, _, _, hlayout, xA, xB, hnnG⟩ :=
     pseudo_trace H compress items r hnn h e
+  have hat := fun hne => sourceAt_of_trace eG hz hne hlayout xA xB hnnG
   have hk : pseudoKind "li" = some .li := by decide
   simp only [expandPseudo, hk] at hexp
   have hwkall := expandKind_wellKinded hk hexp
@@ -125,7 +138,7 @@ theorem assemble_li_effect (H : Hooks) (compress : Bool) (items : List Item) (r 
         (by
           intro hval'
           exact bridge_addi _ _ (some_of_isSome (hval' .rd _ rfl)) reg_x0)
-      refine ⟨sizeSum P, a, v, some_of_isSome (hv1 .rd _ rfl), hval, Or.inl ⟨n, hn, ?_⟩⟩
+      refine ⟨sizeSum P, a, v, hat (by simp), some_of_isSome (hv1 .rd _ rfl), hval, Or.inl ⟨n, hn, ?_⟩⟩
       have : (fun s => wrote s a (BitVec.ofInt 32 v) n) = exec (.i .addi a 0 (relocateLo v)) n := by
         funext s; exact (li_short_effect_n a v n s hc).symm
       rw [this]; exact hex
@@ -172,27 +185,31 @@ theorem assemble_li_effect (H : Hooks) (compress : Bool) (items : List Item) (r 
           (by
             intro hval'
             exact bridge_addi _ _ (some_of_isSome (hval' .rd _ rfl)) (some_of_isSome (hval' .rd _ rfl)))
-        exact ⟨sizeSum P, a, v, some_of_isSome (hv1 .rd _ rfl), hval,
+        exact ⟨sizeSum P, a, v, hat (by simp), some_of_isSome (hv1 .rd _ rfl), hval,
           Or.inr ⟨n1, n2, _, _, hn1, hn2, hex1, hex2, fun s => li_long_effect_n a v n1 n2 s⟩⟩
 
 /-! ### non-vacuity, and why the operand has to be label-free -/
 
-open BB.Props.C12 (Hp hp_litOK lp) in
+open BB.Props.C12 (Hp hp_litOK lp)
+
+def liI1 : Item := .instr (lp 1) (.i "addi" (.str "x0") (.str "x0") (.arith "0") false)
+def liI2 : Item := .pseudo (lp 2) "li" ["a0", "M"]
+def liI3 : Item := .pseudo (lp 3) "li" ["a1", "4106"]
+
 /-- `addi x0,x0,0 ; li a0, M ; li a1, 4106` (hooks `Hp` of Props/C12Program: M = −32): both operands are
     label-free, and the theorem applies with and without `-c` -/
-example (c : Bool) (r : AsmResult)
-    (h : assembleItems Hp c [.instr (lp 1) (.i "addi" (.str "x0") (.str "x0") (.arith "0") false),
-      .pseudo (lp 2) "li" ["a0", "M"], .pseudo (lp 3) "li" ["a1", "4106"]] [] [] = .ok r) :
-    (∃ off a v, lookupRegister (aliasReg r.constants (.str "a0")) = some a ∧
+example (c : Bool) (r : AsmResult) (h : assembleItems Hp c [liI1, liI2, liI3] [] [] = .ok r) :
+    (∃ off a v, SourceAt Hp c [liI1, liI2, liI3] r [liI1] [liI3] (lp 2) off ∧
+      lookupRegister (aliasReg r.constants (.str "a0")) = some a ∧
       (∀ L p, (Imm.arith "M").eval Hp (chainGet r.constants L) (lp 2) p = .ok v) ∧ LiEffect r off a v) ∧
-    (∃ off a v, lookupRegister (aliasReg r.constants (.str "a1")) = some a ∧
+    (∃ off a v, SourceAt Hp c [liI1, liI2, liI3] r [liI1, liI2] [] (lp 3) off ∧
+      lookupRegister (aliasReg r.constants (.str "a1")) = some a ∧
       (∀ L p, (Imm.arith "4106").eval Hp (chainGet r.constants L) (lp 3) p = .ok v) ∧ LiEffect r off a v) :=
-  ⟨assemble_li_effect Hp c _ r (by unfold NonNeg; decide) hp_litOK h (A := [_]) (B := [_]) rfl
+  ⟨assemble_li_effect Hp c _ r (by unfold NonNeg; decide) hp_litOK h (A := [liI1]) (B := [liI3]) rfl
       (imm := .arith "M") rfl (fun _ _ _ _ _ => rfl),
-   assemble_li_effect Hp c _ r (by unfold NonNeg; decide) hp_litOK h (A := [_, _]) (B := []) rfl
+   assemble_li_effect Hp c _ r (by unfold NonNeg; decide) hp_litOK h (A := [liI1, liI2]) (B := []) rfl
       (imm := .arith "4106") rfl (fun _ _ _ _ _ => rfl)⟩
 
-open BB.Props.C12 (Hp lp) in
 /-- … and both runs do succeed (16 bytes; 8 with `-c`: c.nop, c.li, c.lui, c.addi) -/
 example : (assembleItems Hp false [.instr (lp 1) (.i "addi" (.str "x0") (.str "x0") (.arith "0") false),
       .pseudo (lp 2) "li" ["a0", "M"], .pseudo (lp 3) "li" ["a1", "4106"]] [] []).map (fun r => r.bytes.length) = .ok 16 ∧
@@ -207,7 +224,8 @@ def li_effect_unrestricted : Prop :=
     (∀ line p env, LitOK (evalAt H env line p)) → assembleItems H compress items [] [] = .ok r →
     ∀ (A B : List Item) (line : Line) (rd : String) (toks : List String) (imm : Imm),
       items = A ++ .pseudo line "li" (rd :: toks) :: B → H.parseImm toks line = .ok imm →
-      ∃ (off : Int) (a : Nat) (v : Int), lookupRegister (aliasReg r.constants (.str rd)) = some a ∧
+      ∃ (off : Int) (a : Nat) (v : Int), SourceAt H compress items r A B line off ∧
+        lookupRegister (aliasReg r.constants (.str rd)) = some a ∧
         imm.eval H (chainGet r.constants r.labels) line off = .ok v ∧ LiEffect r off a v
 
 /-- **KF-D5 in the model** (hooks of Props/C20TwoRun): `li x25, %offset T` with T 4008 bytes ahead.  The
